@@ -104,6 +104,9 @@ class Check:
         self.assumptions = []
         self.violations = []      # (key, description, replay-object)
         self.known_hits = {}
+        self.unreproduced = []    # deviations seen once and not confirmed on a fresh worker: never a verdict
+        self._drop_next = self._confirm_next = False
+        self._unrep_keys, self._confirmed_keys = set(), set()
         self.worker_bin = None
         self.prefix_of = {}
         self._nontrivial = set()
@@ -530,10 +533,12 @@ class Check:
         print("%s replay: the case no longer violates on this tree" % self.pid)
         return 0
 
-    def reproduce(self, family, sc, still_bad, env=None):
+    def reproduce(self, family, sc, still_bad, env=None, strict=False):
         """Confirm a deviation on a fresh worker: first the scenario alone; if it does not show alone (state kept by the
         library across calls in one process), together with the scenarios that preceded it in its worker process.
-        still_bad(events of sc) -> bool.  Returns "alone" | "with-predecessors" or raises FrameworkError."""
+        still_bad(events of sc) -> bool.  Returns "alone" | "with-predecessors".  A deviation that does not show again is
+        never reported: strict=True raises FrameworkError at once; otherwise the report() that follows is dropped and the
+        run ends as a framework error (exit 2) unless other, confirmed deviations were found."""
         pref = self.prefix_of.get((family, sc))
         if not pref:
             raise FrameworkError("no record of scenario %s" % sc)
@@ -541,11 +546,17 @@ class Check:
         for attempt in range(3):     # a deviation that depends on wall-clock timing gets three chances
             r, d = self.run_worker(family, [pref[-1]], parallel=1, env=env)
             if sc in d or still_bad(r.get(sc, [])):
+                self._confirm_next = True
                 return "alone"
             r, d = self.run_worker(family, list(pref), parallel=1, env=env)
             if sc in d or still_bad(r.get(sc, [])):
+                self._confirm_next = True
                 return "with-predecessors"
-        raise FrameworkError("deviation of scenario %s not reproduced" % sc)
+        if strict:
+            raise FrameworkError("deviation of scenario %s not reproduced" % sc)
+        self.unreproduced.append("%s:%s" % (family, sc))
+        self._drop_next = True
+        return None
 
     def reproduce_trace(self, family, sc, module, cfg, strip, env=None, select=None, head=()):
         """reproduce() for trace-validated families: the scenario's recorded events (without the fields in `strip`, optionally
@@ -566,6 +577,15 @@ class Check:
 
     def report(self, key, what, replay_obj):
         """A deviation reproduced on real code. key identifies the failing input/call site/history class."""
+        if self._drop_next:
+            self._drop_next = False
+            self._unrep_keys.add(key)
+            return
+        if self._confirm_next:
+            self._confirm_next = False
+            self._confirmed_keys.add(key)
+        elif key in self._unrep_keys and key not in self._confirmed_keys:
+            return     # further cases of a class whose first case did not show again
         for k in self.known:
             if re.fullmatch(k["key"], key):
                 self.known_hits.setdefault(k["key"], [k, 0])[1] += 1
@@ -577,6 +597,10 @@ class Check:
             print("KNOWN-FINDING: property=%s %s (%d case(s) this run)" % (self.pid, k["what"], n))
         self.cov["distinct_nontrivial"] = max(self.cov.get("distinct_nontrivial", 0), len(self._nontrivial))
         rc = 0
+        if self.unreproduced and not self.violations:
+            raise FrameworkError("deviation(s) not reproduced on a fresh worker: %s" % ", ".join(self.unreproduced[:6]))
+        if self.unreproduced:
+            log("note: %d further deviation(s) did not show again on a fresh worker and are not reported: %s" % (len(self.unreproduced), ", ".join(self.unreproduced[:6])))
         if self.violations:
             rc = 1
             os.makedirs(os.path.join(OUTDIR, "replays"), exist_ok=True)
